@@ -36,7 +36,7 @@ func seg(id uint64) string { return snapshots.VerifPathSegment(id) }
 func snapPath(id uint64) string { return "checkpoints/job-" + seg(id) + ".snapshot" }
 
 func Run(k *report.Check) {
-	k.Rule = "crash enumeration: a real snapshots.Store publishes 2-3 consecutive checkpoints; after every storage operation (write / remove) the file set is snapshotted and a new Store started on a copy must load the highest checkpoint id whose snapshot file had been completely written. (a) sequentially, starting from every id in 0..70 and around 2^6, 2^12, 2^16, 2^32 (both an in-memory location with lexicographic listing and the real LocalDirectory for a subset); (b) under the cooperative scheduler with the publication goroutines of consecutive checkpoints overlapping (checkpoint N+1 is created and acknowledged as soon as N is complete), every schedule within the delay bound: additionally Remove never targets the newest published checkpoint, a retained notification never names an id lower than one already announced or published, CurrentCheckpoint never goes backwards. non-trivial = distinct (start id, crash point) pairs with at least two snapshot files present, and distinct schedules in which two publications overlapped"
+	k.Rule = "crash enumeration: a real snapshots.Store publishes 2-3 consecutive checkpoints; after every storage operation (write / remove) the file set is snapshotted and a new Store started on a copy must load the highest checkpoint id whose snapshot file had been completely written. (0) every set of one to three snapshot files over a 53-id universe (what repeated crashes between writing the new file and removing the old one, plus abandoned checkpoint ids, can leave behind); (a) sequentially, starting from every id in 0..70 and around 2^6, 2^12, 2^16, 2^32 (both an in-memory location with lexicographic listing and the real LocalDirectory for a subset); (b) under the cooperative scheduler with the publication goroutines of consecutive checkpoints overlapping (checkpoint N+1 is created and acknowledged as soon as N is complete), every schedule within the delay bound: additionally Remove never targets the newest published checkpoint, a retained notification never names an id lower than one already announced or published, CurrentCheckpoint never goes backwards. non-trivial = distinct (start id, crash point) pairs with at least two snapshot files present, and distinct schedules in which two publications overlapped"
 	k.Assumptions = []string{"a storage operation is atomic (no torn snapshot file)", "in-memory location lists lexicographically like S3 and sorted directory walks; a real directory is used for a subset of ids"}
 	k.Budget(120, 1200)
 	var starts []uint64
@@ -50,8 +50,42 @@ func Run(k *report.Check) {
 	}
 	k.Explore("crash-after-each-storage-op/memory", mc.Config{}, seqParams{starts: starts, n: k.Pick(3, 4)}, seqBody)
 	k.Explore("crash-after-each-storage-op/local-directory", mc.Config{Workers: 4}, seqParams{starts: []uint64{0, 1, 2, 3, 61, 62, 63, 64, 4094, 1<<32 - 2}, n: 3, real: true}, seqBody)
+	k.Explore("restart/any-three-snapshot-files", mc.Config{}, nil, subsetBody)
 	bound := k.Pick(4, 5)
 	k.ExploreSched(fmt.Sprintf("overlapping-publication/delays<=%d", bound), mc.Config{Bound: bound}, overlapParams{n: 3}, overlapBody)
+}
+
+// subsetBody: whatever set of completed snapshot files a history of crashes and abandoned
+// checkpoint ids leaves behind (a crash between "write new" and "remove old" leaves the old
+// file for good, since a restarted store only knows the checkpoint it loaded), a restart must
+// load the highest id. Every set of one to three ids from a universe with small ids, ids
+// around the base64 digit boundaries and large ids.
+var universe = func() []uint64 {
+	var u []uint64
+	for i := uint64(1); i <= 40; i++ {
+		u = append(u, i)
+	}
+	return append(u, 47, 48, 62, 63, 64, 65, 4094, 4095, 4096, 4097, 1<<32-1, 1<<32, 1<<32+1)
+}()
+
+func subsetBody(c *mc.Ctx) {
+	n := len(universe)
+	i := c.Choose(n)
+	j := i + c.Choose(n-i)
+	k := j + c.Choose(n-j)
+	ids := []uint64{universe[i]}
+	if j > i {
+		ids = append(ids, universe[j])
+	}
+	if k > j {
+		ids = append(ids, universe[k])
+	}
+	files := map[string][]byte{}
+	for _, id := range ids {
+		files[snapPath(id)] = mustSnap(id)
+	}
+	c.Op("snapshot files of checkpoints %v", ids)
+	checkCrash(c, files, fmt.Sprintf("a history that left the snapshots of %v", ids))
 }
 
 type seqParams struct {
